@@ -309,6 +309,15 @@ def literals_of(prog, body, op, list_params, depth=0, _seen=None):
         if ty.replace("&", "").strip() == "sat::sat_solver::Literal":
             return literal(prog, body, op, list_params, depth)
     roots = origins(body, op, transparent=ELEMENT_PRESERVING)
+    if ty is not None and "Vec<sat::sat_solver::Literal>" in ty.replace(" ", ""):
+        # `let mut cl = lits.collect::<Vec<_>>(); cl.push(x)`: what is pushed onto a collected vector afterwards
+        held, _, _ = data_deps(body, op, through_calls=False)
+        for cs_ in body.calls():
+            if callee_decl(callee_of(cs_)) == "core::iter::traits::iterator::Iterator::collect" and cs_.node["dst"]["l"] in held and not cs_.node["dst"]["p"] and "Vec<sat::sat_solver::Literal>" in body.local_ty(cs_.node["dst"]["l"]).replace(" ", ""):
+                k2 = (body.id, "collected", cs_.bb)
+                if k2 not in _seen:
+                    _seen.add(k2)
+                    out += _pushed(prog, body, cs_.node["dst"]["l"], list_params, depth, _seen)
     for o in roots:
         key = (body.id, o.key())
         if key in _seen:
